@@ -10,6 +10,7 @@
 //! tools/check.py.
 
 mod cancel;
+mod chunks;
 mod sasl;
 mod txn;
 mod typed;
@@ -113,6 +114,7 @@ fn main() {
         "life" => life::main(&opts),
         "typed" => typed::main(&opts),
         "ioread" => ioread::main(&opts),
+        "chunks" => chunks::main(&opts),
         "held" => held::main(&opts),
         "pipeline" => pipeline::main(&opts),
         "probe-to-value" => typed::probe_to_value(&opts),
